@@ -72,7 +72,7 @@ def task_flow(ctx):
     phases (each of the four RK4 stage evaluations of the real nested rhs_amp); the hop integral is antisymmetric with
     zero diagonal."""
     ctx.under_contract(NAD + ":NonadiabaticDynamicsBase._propagate_electronic", loops_cut=["for s in range(nsub)"], note="nested rhs_amp evaluated in situ")
-    for n in (2, 3):
+    for n in ((2, 3) if ctx.tier == "quick" else (2, 3, 4)):
         env = {"n": n, "flow": []}
         loop = RK4Loop(env)
         fn = W.recompile(NAD + ":NonadiabaticDynamicsBase._propagate_electronic", loops={0: ("range(nsub)", loop)})
@@ -122,7 +122,7 @@ def task_attempt_hop(ctx):
     """O2: every g_ij in [0,1], sum_j g_ij <= 1, g_ii = 0, target = first j with cumulative probability >= r, and the
     chosen target has positive probability."""
     fn = ctx.under_contract(SH + "._attempt_hop")
-    n = 3
+    n = 3 if ctx.tier == "quick" else 4
     for active in range(n):
         cap = {}
         saved_cumsum = st.cumsum
@@ -159,19 +159,19 @@ def task_attempt_hop(ctx):
             gs = [g.a[0, j] for j in range(n)]
             for j in range(n):
                 ctx.prove("%s.g[%d]-in-[0,1]" % (tag, j), (gs[j] >= 0) & (gs[j] <= 1), pc=pc)
-            ctx.prove("%s.row-sum<=1" % tag, gs[0] + gs[1] + gs[2] <= 1, pc=pc)
+            ctx.prove("%s.row-sum<=1" % tag, sum(gs) <= 1, pc=pc)
             ctx.prove("%s.g[active]=0" % tag, gs[active] == 0, pc=pc)
             t = int(tgt.a[0])
             if t >= 0:
-                cum = [gs[0], gs[0] + gs[1], gs[0] + gs[1] + gs[2]]
+                cum = [sum(gs[: j + 1]) for j in range(n)]
                 # the draw lies in the closed cumulative interval of the target (its length is g_t); which end point is
                 # included is a measure-zero convention the property does not fix
                 ctx.prove("%s.draw-lies-in-the-cumulative-interval-of-the-target" % tag, (cum[t] >= r) & (S(True) if t == 0 else (cum[t - 1] <= r)), pc=pc)
                 ctx.prove("%s.chosen-target-has-positive-probability" % tag, gs[t] > 0, pc=pc, replay=replay_zero_draw,
                           classify=lambda m, rp: "uniform-draw-exactly-zero")
             else:
-                ctx.prove("%s.no-hop-means-draw-not-below-total" % tag, gs[0] + gs[1] + gs[2] <= r, pc=pc)
-    ctx.assume_note("A4: torch.rand returns a uniform draw in [0,1) (fresh symbol r with 0 <= r < 1); shape: 3 states, one trajectory")
+                ctx.prove("%s.no-hop-means-draw-not-below-total" % tag, sum(gs) <= r, pc=pc)
+    ctx.assume_note("A4: torch.rand returns a uniform draw in [0,1) (fresh symbol r with 0 <= r < 1); shape: %d states, one trajectory" % n)
 
 
 def replay_zero_draw(model):
@@ -272,7 +272,7 @@ def task_relabel(ctx):
     """O4: trivial-crossing relabelling is a permutation of amplitudes and active index (for every permutation handed over
     by _detect_crossings); frustrated hops keep state and velocities; potential bookkeeping E' = E - w_old + w_new."""
     fn = ctx.under_contract(SH + "._after_electronic_update", stubs=["_attempt_hop", "_compute_NACR_for_hop", "_rescale_velocity_along_nac", "_recompute_active_force"])
-    n = 3
+    n = 3 if ctx.tier == "quick" else 4
     for perm in itertools.permutations(range(n)):
         for active in range(n):
             def thunk():
@@ -437,7 +437,7 @@ def task_crossing_detection(ctx):
     """The relabelling map built by _detect_crossings is a permutation (every state in at most one swap pair) for every
     assignment returned by the (stubbed, arbitrary) Hungarian step -- the precondition of the relabel clause."""
     fn = ctx.under_contract(NAD + ":NonadiabaticDynamicsBase._detect_crossings", stubs=["_compute_perm_from_overlap (scipy Hungarian: arbitrary permutation in the window)"])
-    n = 3
+    n = 3 if ctx.tier == "quick" else 4
     for perm in itertools.permutations(range(n)):
         def thunk():
             sh = _new_sh(n)
